@@ -434,3 +434,172 @@ Proof.
   destruct (gbc_area rs sa k e x H Hx) as (G1 & G2 & G3 & G4 & G5 & G6 & _ & G8 & G9).
   rewrite G3, G4, G5, G8, G9, P1, P2. repeat split; try assumption; lia.
 Qed.
+
+(* ---- concurrency: allocation order (seed C17-11) ------------------------------------------ *)
+Lemma step_event_with s a r :
+  step (s, a) r =
+  (({| st_id := st_id s; st_seq := (st_seq s + 1) mod SEQ_MOD |},
+    fst (event_with (st_id s) (st_seq s) a r)),
+   snd (event_with (st_id s) (st_seq s) a r)).
+Proof. destruct r; reflexivity. Qed.
+
+Lemma run_alloc_zrange rs : forall s a c,
+  run_alloc s a rs (zrange c (length rs)) = run ({| st_id := st_id s; st_seq := seq_at s c |}, a) rs.
+Proof.
+  induction rs as [|r rs IH]; intros s a c; [reflexivity|].
+  cbn [run_alloc run length zrange hd tl].
+  rewrite step_event_with. cbn [st_id st_seq].
+  destruct (event_with (st_id s) (seq_at s c) a r) as [a' e]. cbn [fst snd].
+  f_equal. rewrite IH. f_equal. f_equal. f_equal.
+  unfold seq_at. rewrite Zplus_mod_idemp_l. f_equal. lia.
+Qed.
+
+(* allocation in request order is the run of the sequential model *)
+Lemma run_alloc_request_order s a rs : 0 <= st_seq s < SEQ_MOD ->
+  run_alloc s a rs (zrange 0 (length rs)) = run (s, a) rs.
+Proof.
+  intros R. rewrite run_alloc_zrange. f_equal. f_equal.
+  unfold seq_at. rewrite Z.add_0_r, Z.mod_small by exact R. now destruct s.
+Qed.
+
+Lemma nth_tl (l : list Z) k : nth k (tl l) 0 = nth (S k) l 0.
+Proof. destruct l; [destruct k|]; reflexivity. Qed.
+
+Lemma hd_nth (l : list Z) : hd 0 l = nth 0 l 0.
+Proof. now destruct l. Qed.
+
+Lemma run_alloc_nth rs : forall s a ranks k e, nth_error (run_alloc s a rs ranks) k = Some e ->
+  exists a0 r, nth_error rs k = Some r /\
+               e = snd (event_with (st_id s) (seq_at s (nth k ranks 0)) a0 r).
+Proof.
+  induction rs as [|r0 rs IH]; intros s a ranks k e H.
+  - destruct k; discriminate.
+  - cbn [run_alloc] in H.
+    destruct (event_with (st_id s) (seq_at s (hd 0 ranks)) a r0) as [a' e0] eqn:E.
+    destruct k as [|k]; cbn [nth_error] in *.
+    + injection H as <-. exists a, r0. split; [reflexivity|]. rewrite <- hd_nth, E. reflexivity.
+    + apply IH in H as (a0 & r & Hr & ->). exists a0, r. split; [exact Hr|]. now rewrite nth_tl.
+Qed.
+
+Lemma event_with_txs sid seq a r x : In x (ev_txs (snd (event_with sid seq a r))) ->
+  ev_seq (snd (event_with sid seq a r)) = seq /\
+  d_seq (tx_msg x) = seq /\ d_orig_station (tx_msg x) = sid /\ d_hdr_station (tx_msg x) = sid /\
+  d_ref (tx_msg x) = its_of_utc (tx_time x).
+Proof.
+  destruct r as [t0 olat olon i T | t0 lat lon ok]; cbn.
+  - intros H. apply in_map_iff in H as (off & <- & _). cbn. auto.
+  - destruct ok; cbn; [|tauto]. intros [<-|[]]. cbn. auto.
+Qed.
+
+(* whatever the allocation order: one number per event, the station's identity *)
+Lemma alloc_same_action_id rs s a ranks k e x :
+  nth_error (run_alloc s a rs ranks) k = Some e -> In x (ev_txs e) ->
+  d_seq (tx_msg x) = ev_seq e /\ ev_seq e = seq_at s (nth k ranks 0) /\
+  d_orig_station (tx_msg x) = st_id s /\ d_hdr_station (tx_msg x) = st_id s.
+Proof.
+  intros H Hx. apply run_alloc_nth in H as (a0 & r & _ & ->).
+  apply event_with_txs in Hx as (-> & -> & -> & -> & _). auto.
+Qed.
+
+Lemma seq_at_distinct s p q : p <> q -> Z.abs (p - q) < SEQ_MOD -> seq_at s p <> seq_at s q.
+Proof. unfold seq_at, SEQ_MOD. intros Hne Hd E. lia. Qed.
+
+(* two events whose calls of next_sequence_number were different calls, less than 65 536
+   calls apart: every DENM of the one differs from every DENM of the other *)
+Lemma alloc_distinct_action_ids rs s a ranks j k ej ek x y :
+  nth j ranks 0 <> nth k ranks 0 -> Z.abs (nth j ranks 0 - nth k ranks 0) < SEQ_MOD ->
+  nth_error (run_alloc s a rs ranks) j = Some ej -> nth_error (run_alloc s a rs ranks) k = Some ek ->
+  In x (ev_txs ej) -> In y (ev_txs ek) ->
+  (d_orig_station (tx_msg x), d_seq (tx_msg x)) <> (d_orig_station (tx_msg y), d_seq (tx_msg y)).
+Proof.
+  intros Hne Hd Hj Hk Hx Hy E.
+  destruct (alloc_same_action_id rs s a ranks j ej x Hj Hx) as (Sx & Ex & _).
+  destruct (alloc_same_action_id rs s a ranks k ek y Hk Hy) as (Sy & Ey & _).
+  injection E as _ E. rewrite Sx, Sy, Ex, Ey in E.
+  exact (seq_at_distinct s _ _ Hne Hd E).
+Qed.
+
+Lemma event_with_unnumbered sid seq1 seq2 a r :
+  fst (event_with sid seq1 a r) = fst (event_with sid seq2 a r) /\
+  event_unnumbered (snd (event_with sid seq1 a r)) = event_unnumbered (snd (event_with sid seq2 a r)).
+Proof.
+  destruct r as [t0 olat olon i T | t0 lat lon ok]; cbn; (split; [reflexivity|]).
+  - unfold event_unnumbered. cbn. f_equal. rewrite !map_map. apply map_ext. reflexivity.
+  - destruct ok; reflexivity.
+Qed.
+
+(* the allocation order decides the numbers and nothing else: count, times, reference
+   times, station identity, positions and destination areas are those of [run] *)
+Lemma alloc_only_numbers rs : forall s s2 a ranks, st_id s = st_id s2 ->
+  map event_unnumbered (run_alloc s a rs ranks) = map event_unnumbered (run (s2, a) rs).
+Proof.
+  induction rs as [|r rs IH]; intros s s2 a ranks Hid; [reflexivity|].
+  cbn [run_alloc run]. rewrite step_event_with. rewrite <- Hid.
+  destruct (event_with_unnumbered (st_id s) (seq_at s (hd 0 ranks)) (st_seq s2) a r) as [F U].
+  destruct (event_with (st_id s) (seq_at s (hd 0 ranks)) a r) as [a1 e1].
+  destruct (event_with (st_id s) (st_seq s2) a r) as [a2 e2].
+  cbn [fst snd] in *. subst a2. cbn [map]. rewrite U. f_equal.
+  apply IH. reflexivity.
+Qed.
+
+Lemma alloc_only_numbers_run s a rs ranks :
+  map event_unnumbered (run_alloc s a rs ranks) = map event_unnumbered (run (s, a) rs).
+Proof. now apply alloc_only_numbers. Qed.
+
+(* ---- concurrency: construction of the messages, any interleaving ------------------------- *)
+Lemma upd_same {A} (l : list A) : forall k v x, nth_error l k = Some x -> nth_error (upd k v l) k = Some v.
+Proof.
+  induction l as [|h t IH]; intros k v x H; destruct k; try discriminate; cbn in *; eauto.
+Qed.
+
+Lemma upd_other {A} (l : list A) : forall k k' v, k <> k' -> nth_error (upd k v l) k' = nth_error l k'.
+Proof.
+  induction l as [|h t IH]; intros k k' v Hne; [now destruct k|].
+  destruct k, k'; cbn; try reflexivity; try congruence. apply IH. congruence.
+Qed.
+
+(* what a construction has reached depends only on how many steps IT was given *)
+Lemma interleave_component js k j : nth_error js k = Some j -> forall order bs b,
+  nth_error bs k = Some b ->
+  nth_error (interleave js bs order) k = Some (build_steps (count_occ Nat.eq_dec order k) j b).
+Proof.
+  intros Hj. induction order as [|k0 rest IH]; intros bs b Hb; [exact Hb|].
+  cbn [interleave count_occ]. destruct (Nat.eq_dec k0 k) as [->|Hne].
+  - rewrite Hj, Hb. cbn [build_steps]. apply IH. exact (upd_same bs k _ b Hb).
+  - destruct (nth_error js k0) as [j0|]; [|now apply IH].
+    destruct (nth_error bs k0) as [b0|]; [|now apply IH].
+    apply IH. rewrite upd_other by exact Hne. exact Hb.
+Qed.
+
+Lemma build_steps_sent n j x : build_steps n j (B_sent x) = B_sent x.
+Proof. induction n; [reflexivity|exact IHn]. Qed.
+
+Lemma build_steps_four n j : (4 <= n)%nat ->
+  build_steps n j B_new = B_sent (send_at (j_sid j) (j_seq j) (j_lat j) (j_lon j) (j_now j)).
+Proof.
+  intros H. do 4 (destruct n as [|n]; [lia|]). cbn [build_steps build_step]. rewrite build_steps_sent.
+  reflexivity.
+Qed.
+
+Lemma nth_error_map_const {A B} (l : list A) (c : B) k x : nth_error l k = Some x ->
+  nth_error (map (fun _ => c) l) k = Some c.
+Proof. intros H. now rewrite nth_error_map, H. Qed.
+
+(* any number of constructions in progress, any order of their steps: a construction
+   that was given its four steps has handed over exactly the DENM of the atomic model *)
+Lemma construction_private js order k j : nth_error js k = Some j ->
+  (4 <= count_occ Nat.eq_dec order k)%nat ->
+  nth_error (interleave js (map (fun _ => B_new) js) order) k =
+  Some (B_sent (send_at (j_sid j) (j_seq j) (j_lat j) (j_lon j) (j_now j))).
+Proof.
+  intros Hj Hc. rewrite (interleave_component js k j Hj order _ B_new (nth_error_map_const js B_new k j Hj)).
+  now rewrite build_steps_four.
+Qed.
+
+(* ... and before that it has handed over nothing, and nothing of another construction *)
+Lemma construction_progress js order k j : nth_error js k = Some j ->
+  nth_error (interleave js (map (fun _ => B_new) js) order) k =
+  Some (build_steps (count_occ Nat.eq_dec order k) j B_new).
+Proof.
+  intros Hj. exact (interleave_component js k j Hj order _ B_new (nth_error_map_const js B_new k j Hj)).
+Qed.
